@@ -134,7 +134,14 @@ def run_studio(ctx, seed):
         else:
             ids = None
             now = box.fake.now if box.fake is not None else datetime.datetime.utcnow()
-            studio = PlaybackStudio(cats, Tuner(), rec, lookup_properties=RecordingLookupProperties(start_date=now - datetime.timedelta(days=1), limit=20),
+            given = list(cats)
+            if rng.random() < 0.3:
+                # a category named more than once in the list (merged configuration files): it is still one category
+                for _ in range(rng.randrange(1, 3)):
+                    given.insert(rng.randrange(len(given) + 1), rng.choice(cats))
+                ctx.count('lookup_studios_with_a_repeated_category')
+            w['given_categories'] = given
+            studio = PlaybackStudio(given, Tuner(), rec, lookup_properties=RecordingLookupProperties(start_date=now - datetime.timedelta(days=1), limit=20),
                                     compare_execution_config=cfg)
 
         def play_once(failing_now):
@@ -171,6 +178,13 @@ def run_studio(ctx, seed):
             exp_cats = [c for c in cats if (saved[c] if explicit else True)]
             if set(out) != set(exp_cats):
                 ctx.violation('studio reports categories %r, expected %r' % (sorted(out), sorted(exp_cats)), ww)
+            elif not explicit:
+                first_seen = []
+                for c in w['given_categories']:
+                    if c not in first_seen:
+                        first_seen.append(c)
+                if list(out) != first_seen:
+                    ctx.violation('lookup-driven studio reports the categories in another order than they were given', dict(ww, got=list(out), given=w['given_categories']))
             for c in out:
                 if c in failing_now:
                     ctx.count('failing_tuners_checked')
@@ -222,7 +236,23 @@ def run_studio(ctx, seed):
         ctx.count('mode_explicit' if explicit else 'mode_lookup')
         if dedicated:
             ctx.count('studios_dedicated_process')
-        out1, j1 = play_once(failing)
+        slow = dedicated and seed % 2 == 0
+        if slow:
+            # injected delay at an existing suspension point: the parent is descheduled right after forking a worker
+            import multiprocessing.process as _mpp
+            import time as _time
+            _orig_start = _mpp.BaseProcess.start
+
+            def _slow_start(self):
+                _orig_start(self)
+                _time.sleep(0.25)
+            _mpp.BaseProcess.start = _slow_start
+            ctx.count('studios_with_parent_delayed_after_fork')
+        try:
+            out1, j1 = play_once(failing)
+        finally:
+            if slow:
+                _mpp.BaseProcess.start = _orig_start
         judge(out1, j1, failing, 'first')
         out2, j2 = play_once(failing)
         same = set(out1) == set(out2) and all((isinstance(out1[c], Exception) and isinstance(out2.get(c), Exception)) or out1[c] == out2.get(c) for c in out1)
